@@ -197,6 +197,18 @@ def run_case(case):
             snaps2 = [snapshot_cell(a)] + ([snapshot_cell(b)] if okind == 'var' else [digest(np.asarray(b))])
             if snaps != snaps2:
                 bad.append(('operand-modified', 'operator %s modified an operand' % op))
+            if isinstance(res, pf.CellVariable):
+                # the same operation once more; NOTHING looks at this result before the operand's boundary data are changed: the
+                # result carries the conditions its operand had when the operation took place
+                lm_ = a if not (side == 'left' and okind == 'var') else b
+                bc_then = digest(*bc_arrays(lm_.BCs))
+                c_saved = np.array(np.asarray(lm_.BCs.left.c), copy=True)
+                res_late = f(a, b) if side == 'right' else f(b, a)
+                lm_.BCs.left.c = c_saved + 1.75
+                if isinstance(res_late, pf.CellVariable) and digest(*bc_arrays(res_late.BCs)) != bc_then:
+                    bad.append(('operand-edit-leaks', 'operator %s: boundary data of the operand edited right after the operation (before the result was looked at) show up in the result' % op))
+                lm_.BCs.left.c = c_saved
+                cov['operand_edited_before_result_read'] = 1
             if side == 'left' and okind in ('npfloat', 'npint', 'ndarray', 'size1'):
                 # numpy takes over the dispatch: values only
                 if not eq(np.asarray(res, dtype=float) if not isinstance(res, pf.CellVariable) else res.value, np.asarray(ex, dtype=float)):
